@@ -4,7 +4,7 @@ import json, os, subprocess, sys, time
 
 def sh(cmd, cwd=None, timeout=3600):
     p = subprocess.run(cmd, shell=True, cwd=cwd, capture_output=True, text=True, timeout=timeout)
-    return p.returncode, (p.stdout + p.stderr)
+    return p.returncode, (p.stdout + ("" if "checks/" in cmd else p.stderr))
 
 def main():
     seed, wt, props = sys.argv[1], sys.argv[2], sys.argv[3].split(",")
